@@ -201,6 +201,20 @@ def addEdges (s : FSA V L) (edges : List (V × V × L)) (ignoreRedundant : Bool 
     Except Err (FSA V L) :=
   s.addEdgesL (edges.map fun e => (e.1, e.2.1, [e.2.2])) ignoreRedundant
 
+/-- `edge_labels(tail, head)` (fsa.py:215), which is also the read inside `has_edge` (fsa.py:178)
+and `edge_label` (fsa.py:202): `self._out_dict[tail][head]` on a `defaultdict(list)` *inserts* an
+empty list for a missing `head` -/
+def edgeLabels (s : FSA V L) (tail head : V) : Except Err (FSA V L × List L) := do
+  let row ← s.out.get tail
+  match row.get? head with
+  | some ls => return (s, ls)
+  | none => return ({ s with out := s.out.set tail (row.set head []) }, [])
+
+/-- `has_edge(tail, head)` (fsa.py:178) -/
+def hasEdge (s : FSA V L) (tail head : V) : Except Err (FSA V L × Bool) := do
+  let (s', ls) ← s.edgeLabels tail head
+  return (s', decide (ls.length > 0))
+
 /-- first loop of `delete_vertex` (fsa.py:280-281): `self._in_dict[w].pop(vertex)` for `w` in
 `neighbors_out(vertex)` -/
 def popIn (x : V) : List V → Dict V (Dict V (List L)) → Except Err (Dict V (Dict V (List L)))
@@ -455,6 +469,7 @@ inductive Op (V L : Type)
   | recurrent
   | rename (m : Dict L L)
   | copy
+  | hasEdge (tail head : V)   -- a query; listed because it writes to a `defaultdict`
 
 /-- apply one operation -/
 def applyOp (s : FSA V L) : Op V L → Except Err (FSA V L)
@@ -466,6 +481,7 @@ def applyOp (s : FSA V L) : Op V L → Except Err (FSA V L)
   | .recurrent => s.recurrent
   | .rename m => s.rename m
   | .copy => .ok s.copy
+  | .hasEdge t h => (s.hasEdge t h).map Prod.fst
 
 /-- apply a history, stopping at the first operation that raises -/
 def run (s : FSA V L) : List (Op V L) → Except Err (FSA V L)
